@@ -127,7 +127,18 @@ fn run_child(check: &dyn Check, a: &Args, shard: usize, nshards: usize, dir: &Pa
     }
     let mut idx = shard as u64;
     let mut stopped_early = false;
+    // address-space limit: an allocation driven by an attacker-controlled count aborts this
+    // child; the parent attributes the abort to the case recorded in the .cur file
+    unsafe {
+        let lim = libc::rlimit { rlim_cur: 6 << 30, rlim_max: 6 << 30 };
+        libc::setrlimit(libc::RLIMIT_AS, &lim);
+    }
+    let cur = std::fs::OpenOptions::new().create(true).write(true).open(dir.join(format!("shard-{}.cur", shard))).ok();
     while idx < total {
+        if let Some(f) = &cur {
+            use std::os::unix::fs::FileExt;
+            let _ = f.write_all_at(&idx.to_le_bytes(), 0);
+        }
         check.run_case(&ctx, idx, &mut out);
         idx += nshards as u64;
         if (idx / nshards as u64) % 64 == 0 && t0.elapsed() > budget {
@@ -245,9 +256,21 @@ fn main() {
             (Ok(st), _) => {
                 use std::os::unix::process::ExitStatusExt;
                 if let Some(sig) = st.signal() {
+                    let cur_case = std::fs::read(tmp.join(format!("shard-{}.cur", shard)))
+                        .ok()
+                        .filter(|b| b.len() == 8)
+                        .map(|b| u64::from_le_bytes(b[..8].try_into().unwrap()));
                     // The subject killed the process (stack overflow, abort). This is an
-                    // observation about the subject only when a phase was announced.
-                    if !last_phase.is_empty() && last_phase != "done" {
+                    // observation about the subject only when a phase or case was announced.
+                    if sig == 9 {
+                        harness_errors.push(format!("shard {} was killed (SIGKILL, e.g. out of memory) at case {:?}; inconclusive", shard, cur_case));
+                    } else if let (true, Some(case)) = (last_phase.is_empty() || last_phase == "done", cur_case) {
+                        merged.violation(
+                            format!("abort:signal{}", sig),
+                            format!("child process died with signal {} while running case {}; stderr: {}", sig, case, tail(&err)),
+                            json!({"property": a.id, "seed": a.seed, "case": case, "tier": a.tier.name(), "signal": sig}),
+                        );
+                    } else if !last_phase.is_empty() && last_phase != "done" {
                         merged.violation(
                             format!("abort:signal{}:{}", sig, last_phase.split(" n=").next().unwrap_or("")),
                             format!("child process died with signal {} during: {}", sig, last_phase),
